@@ -428,4 +428,4 @@ def run(report, tier):
                  "symbols x {static, ref} (+ attribute sets below entrait); non-trivial = differs from the default / has items" % (DIM_ORDER, len(gen.MOD_ITEM_ORDER), len(IMPL_ITEMS)))
     report.assumptions += ["token trees as presented by the proc_macro API (recorder hook)",
                            "punctuation spacing outside brace groups is not compared (syn reprints signatures)"]
-    evaluate(states, report, tier)
+    common.evaluate_chunked(evaluate, states, report, tier)
